@@ -493,6 +493,12 @@ func (in *Interp) runFrame(fr *Frame, name string) Value {
 					return nil // abandon the rest of a foreign initialiser
 				}
 				c := in.evalTerm(fr, x.Cond)
+				if forkSites != nil {
+					curForkSite = fr.fn.String() + " " + in.ld.prog.Fset.Position(x.Pos()).String()
+					if !x.Pos().IsValid() {
+						curForkSite = fr.fn.String() + " " + in.ld.prog.Fset.Position(x.Cond.Pos()).String()
+					}
+				}
 				if in.p.Decide(c) {
 					next = b.Succs[0]
 				} else {
@@ -1708,3 +1714,7 @@ func (in *Interp) selectStmt(fr *Frame, x *ssa.Select) Value {
 	v, ok := in.chanRecv(c)
 	return mk(k, ok, k, v)
 }
+
+// fork-site profiling (VERIF_FORKS=1): where do paths split?
+var forkSites map[string]int
+var curForkSite string
